@@ -1225,14 +1225,14 @@ def k7(rep, src):
     if not ok_eq or not ok_rank:
         rep.violation("K7", key + "@on", "the ranking join is not ON left.%s = right.%s AND left.%s <= right.%s: %s" % (colp, colp, rcol, rcol, txt[:200]), f.where())
     # the final filter: rank <= max
-    fl = [c for c in find(f.body, "mcall") if c["m"] == "filter" and c["args"] and is_call_to(c["args"][0], "Expr::lt_eq", "Expr::lt")]
+    fl = [c for c in find(f.body, "mcall") if c["m"] == "filter" and c["args"] and is_call_to(resolve(c["args"][0]), "Expr::lt_eq", "Expr::lt")]  # the predicate may be a named local (`let within_bound = Expr::lt_eq(..)`)
     okf = False
     if len(fl) == 1:
-        a = fl[0]["args"][0]
+        a = resolve(fl[0]["args"][0])
         okf = is_call_to(a, "Expr::lt_eq") and len(a["args"]) == 2 and is_call_to(a["args"][0], "Expr::col") and maxp in {y["segs"][0] for y in walk(a["args"][1]) if y["k"] == "path"} and not [y for y in walk(a["args"][1]) if y["k"] == "binary"]
-    rep.instance("K7", key + "@filter", {"filter": show(fl[0]["args"][0], 120) if fl else None, "rank_at_most_max": okf})
+    rep.instance("K7", key + "@filter", {"filter": show(resolve(fl[0]["args"][0]), 120) if fl else None, "rank_at_most_max": okf})
     if not okf:
-        rep.violation("K7", key + "@filter", "the result is not filtered by `rank <= %s`: %s" % (maxp, show(fl[0]["args"][0], 120) if fl else "no filter"), f.where())
+        rep.violation("K7", key + "@filter", "the result is not filtered by `rank <= %s`: %s" % (maxp, show(resolve(fl[0]["args"][0]), 120) if fl else "no filter"), f.where())
 
 
 def _same_origin(a, b, lets):
